@@ -1,5 +1,6 @@
 mod asm;
 mod authgate;
+mod frames;
 mod satloc;
 mod cfggate;
 mod crash;
@@ -174,6 +175,7 @@ fn main() {
         "gas" => gas::run(&args[2], args[3].parse().unwrap_or(1), args[4].parse().unwrap_or(20)),
         "cfggate" => cfggate::run(&args[2], &args[3]),
         "satloc" => satloc::run(&args[2], &args[3]),
+        "frames" => frames::run(&args[2], &args[3]),
         "auth" => authgate::run(&args[2], &args[3], args.get(4).map(|x| x == "on")),
         "methods" => {
             let dir = tempfile::TempDir::new().unwrap();
